@@ -399,7 +399,16 @@ def tsp_qap_corpus(r: Runner, rng):
     from moptipyapps.order1d.distances import swap_distance
     from moptipyapps.qap.instance import Instance as QInst
     from moptipyapps.qap.instance import trivial_bounds
-    from moptipyapps.qap.objective import _evaluate
+    import moptipyapps.qap.objective as qobj
+    _evaluate = getattr(qobj, "_evaluate", None)
+    if _evaluate is None:
+        # the private kernel has another name on this tree; the objective is
+        # still driven under the bounds-checked engine by the C09 slice
+        r.ctx.count("private_kernel_signature_differs")
+        r.ctx.note("qap.objective._evaluate does not exist on this tree")
+
+        def _evaluate(x, d, f):
+            return None
     from moptipyapps.tsp.instance import Instance
     from moptipyapps.tsp.tour_length import tour_length
     ea_k = getattr(ea, "_verif_orig", ea.rev_if_not_worse)
